@@ -31,7 +31,7 @@ const B: &[&str] = &[
     "feed_in_range_negative", "feed_in_range_nonnegative", "feed_below_range", "feed_above_range",
     "feed_negative_nonmultiple", "feed_range_end_exact", "feed_range_end_outside_by_one", "feed_u64_above_i64_max",
     "feed_ns_u64_above_i64_max_in_range", "feed_json", "feed_bincode", "feed_direct", "feed_none", "feed_option_some",
-    "feed_naive", "feed_utc",
+    "feed_naive", "feed_utc", "local_zone_not_utc",
 ];
 // every bucket is reached by the deterministic (catalogue) part of the workload
 const FLOOR: &[&str] = B;
@@ -407,6 +407,42 @@ macro_rules! for_mods {
 // run
 // ------------------------------------------------------------------------------------------------
 
+/// `DateTime<Local>` in a process whose local zone is not UTC (child processes with TZ set): its JSON
+/// and bincode forms, and the forms of the same instant written from other zones, read back as the
+/// instant shown with the local zone's offset.
+fn local_child(ctx: &Ctx, rep: &Report) {
+    use crate::props::tzchild::{self, Ans};
+    let mut loc = rep.local();
+    let bk = bi("local_zone_not_utc");
+    for (zi, tz) in ["JST-9", "NST3:30NDT,M3.2.0,M11.1.0", "NZST-12NZDT,M9.5.0,M4.1.0/3"].iter().enumerate() {
+        let mut rng = Rng::new(ctx.seed, "C20/local-child", zi as u64);
+        let q: Vec<(char, i64)> = (0..ctx.n(200, 10_000))
+            .map(|_| {
+                ('P', match rng.below(3) {
+                    0 => rng.range(1_600_000_000, 1_700_000_000),
+                    1 => rng.range(-62_135_596_800, 253_402_300_799),
+                    _ => *rng.pick(&[1_615_705_200i64, 1_636_264_800, 1_632_578_400, 1_617_458_400]) + rng.range(-90_000, 90_000),
+                })
+            })
+            .collect();
+        match tzchild::run_child(&ctx.work_dir, &format!("c20-{}", zi), Some(tz), &q) {
+            Ok(ans) => {
+                for ((_, u), a) in q.iter().zip(ans.iter()) {
+                    loc.eval();
+                    loc.bucket(bk);
+                    match a {
+                        Ans::Single(_) => {}
+                        Ans::Panic(msg) if msg.starts_with(tzchild::GLUE) => loc.violation("C20/DateTime<Local>/child-with-TZ/does-not-read-back-as-the-value", json!({"TZ": tz, "unix": u, "message": msg})),
+                        other => loc.violation("C20/DateTime<Local>/child-with-TZ/panic-or-error", json!({"TZ": tz, "unix": u, "observed": other.print()})),
+                    }
+                    loc.nontrivial(h2(95, h2(zi as u64, *u as u64)));
+                }
+            }
+            Err(e) => rep.harness_error(format!("C20 local-zone child: {}", e)),
+        }
+    }
+}
+
 pub fn run(ctx: &Ctx) -> Outcome {
     // thorough marks several 10^8 distinct cases: a wider bitmap keeps the under-count small
     let rep = Report::with_bitmap_bits("C20", B, FLOOR, ctx.tier.pick(27, 30));
@@ -430,6 +466,7 @@ pub fn run(ctx: &Ctx) -> Outcome {
     ts_serialize(ctx, &rep);
     ts_feed(ctx, &rep);
     type_mismatch(&rep);
+    local_child(ctx, &rep);
     rep.finish(
         ctx,
         "values: boundary catalogues of R-cal/R-inst (range ends, year classes, fractions, all 2879 whole-minute offsets, \
@@ -445,7 +482,7 @@ pub fn run(ctx: &Ctx) -> Outcome {
             "R-cal / R-inst (harness/src/refcal.rs, refinst.rs) are correct: self-tested at the start of every run",
             "serde_json 1.x and bincode 1.3 (fixint, little endian) behave as documented: newtype structs are transparent, JSON non-negative integers reach visit_u64, negative ones visit_i64, bincode i64 reaches visit_i64",
             "leap-second representations are generated on second 59 only (the only ones the constructors accept); zone-aware leap seconds only with whole-minute offsets",
-            "DateTime<Local> is exercised with the process zone as found (UTC here) on years 1970..2037 and only its instant is compared",
+            "DateTime<Local> is exercised in-process with the zone as found (UTC here) and, for instant and offset, in child processes with TZ set to three rule zones",
         ],
     )
 }
